@@ -20,6 +20,7 @@ import (
 	"github.com/nspcc-dev/neo-go/pkg/util"
 	"github.com/nspcc-dev/neo-go/pkg/vm/emit"
 	"github.com/nspcc-dev/neo-go/pkg/vm/opcode"
+	"github.com/nspcc-dev/neo-go/pkg/wallet"
 
 	"verif/lib/chainx"
 )
@@ -88,12 +89,18 @@ type op struct {
 
 func pairOps() []op {
 	return []op{
-		{"v1", func(w *chainx.World) (*transaction.Transaction, error) { return call(w, []int{2}, gas, neoH, "vote", acc(2), pub(1)) }},
+		{"v1", func(w *chainx.World) (*transaction.Transaction, error) {
+			return call(w, []int{2}, gas, neoH, "vote", acc(2), pub(1))
+		}},
 		{"t", func(w *chainx.World) (*transaction.Transaction, error) {
 			return call(w, []int{2}, gas, neoH, "transfer", acc(2), acc(1), int64(1000000), nil)
 		}},
-		{"v2", func(w *chainx.World) (*transaction.Transaction, error) { return call(w, []int{2}, gas, neoH, "vote", acc(2), pub(2)) }},
-		{"u", func(w *chainx.World) (*transaction.Transaction, error) { return call(w, []int{2}, gas, neoH, "vote", acc(2), nil) }},
+		{"v2", func(w *chainx.World) (*transaction.Transaction, error) {
+			return call(w, []int{2}, gas, neoH, "vote", acc(2), pub(2))
+		}},
+		{"u", func(w *chainx.World) (*transaction.Transaction, error) {
+			return call(w, []int{2}, gas, neoH, "vote", acc(2), nil)
+		}},
 		{"r2", func(w *chainx.World) (*transaction.Transaction, error) {
 			return call(w, []int{2}, 1010*gas, neoH, "registerCandidate", pub(2))
 		}},
@@ -104,7 +111,9 @@ func pairOps() []op {
 		{"d", func(w *chainx.World) (*transaction.Transaction, error) {
 			return call(w, []int{2}, gas, gasH, "transfer", acc(2), notH, int64(7*gas), []any{nil, int64(w.N.Height() + 3)})
 		}},
-		{"w", func(w *chainx.World) (*transaction.Transaction, error) { return call(w, []int{2}, gas, notH, "withdraw", acc(2), nil) }},
+		{"w", func(w *chainx.World) (*transaction.Transaction, error) {
+			return call(w, []int{2}, gas, notH, "withdraw", acc(2), nil)
+		}},
 		{"z", func(w *chainx.World) (*transaction.Transaction, error) {
 			return call(w, []int{2}, gas, neoH, "transfer", acc(2), acc(2), int64(0), nil)
 		}},
@@ -132,6 +141,43 @@ func pairTemplates(n int) []chainx.Tpl {
 		}
 	}
 	return out
+}
+
+// committeeSigner returns a signer for the CURRENT committee address: the
+// standby committee of the family, or - once votes have elected the cast's
+// accounts - the majority multisig of their keys.
+func committeeSigner(w *chainx.World) neotest.Signer {
+	com, err := w.N.BC.GetCommittee()
+	if err != nil {
+		return w.N.Committee
+	}
+	if !w.N.Opts.Multi {
+		// one member, one-block epochs: the next block's committee is what the
+		// last PostPersist computed
+		com = w.N.BC.ComputeNextBlockValidators()
+	}
+	byKey := map[string]int{}
+	for i := 1; i <= 7; i++ {
+		byKey[string(pub(i))] = i
+	}
+	var members []int
+	for _, k := range com {
+		i, ok := byKey[string(k.Bytes())]
+		if !ok {
+			return w.N.Committee
+		}
+		members = append(members, i)
+	}
+	m := len(com) - (len(com)-1)/2
+	var accs []*wallet.Account
+	for _, i := range members {
+		a := wallet.NewAccountFromPrivateKey(chainx.Acc(i).PrivateKey())
+		if err := a.ConvertMultisig(m, com.Copy()); err != nil {
+			return w.N.Committee
+		}
+		accs = append(accs, a)
+	}
+	return neotest.NewMultiSigner(accs...)
 }
 
 func notarySigner(w *chainx.World) neotest.Signer {
@@ -285,7 +331,8 @@ func ownTemplates() []chainx.Tpl {
 		}},
 		{"block-voter2", func(w *chainx.World) (txs, error) { // blocking revokes the votes of the account
 			return seq(func() (*transaction.Transaction, error) {
-				return w.N.MakeTx(chainx.CallScript(polH, "blockAccount", acc(2)), []neotest.Signer{w.N.Committee}, chainx.SysFee(3*gas))
+				// account 3 pays: an elected committee's multisig address owns no GAS
+				return w.N.MakeTx(chainx.CallScript(polH, "blockAccount", acc(2)), []neotest.Signer{chainx.Signer(3), committeeSigner(w)}, chainx.SysFee(3*gas))
 			})
 		}},
 		{"caught-transfer", func(w *chainx.World) (txs, error) { // callee moves tokens and votes, then throws; caller catches
@@ -301,7 +348,9 @@ func ownTemplates() []chainx.Tpl {
 				})
 			})
 		}},
-		{"halt-all", func(w *chainx.World) (txs, error) { return seq(func() (*transaction.Transaction, error) { return allInOne(w, false) }) }},
+		{"halt-all", func(w *chainx.World) (txs, error) {
+			return seq(func() (*transaction.Transaction, error) { return allInOne(w, false) })
+		}},
 		{"fault-all", func(w *chainx.World) (txs, error) { // everything above, then ABORT
 			return seq(
 				func() (*transaction.Transaction, error) { return allInOne(w, true) },
@@ -337,10 +386,14 @@ func ownTemplates() []chainx.Tpl {
 			)
 		}},
 		{"n-withdraw2", func(w *chainx.World) (txs, error) { // too early => false => ASSERT faults
-			return seq(func() (*transaction.Transaction, error) { return callAssert(w, []int{2}, gas, notH, "withdraw", acc(2), nil) })
+			return seq(func() (*transaction.Transaction, error) {
+				return callAssert(w, []int{2}, gas, notH, "withdraw", acc(2), nil)
+			})
 		}},
 		{"n-withdraw2-to4", func(w *chainx.World) (txs, error) {
-			return seq(func() (*transaction.Transaction, error) { return call(w, []int{2}, gas, notH, "withdraw", acc(2), acc(4)) })
+			return seq(func() (*transaction.Transaction, error) {
+				return call(w, []int{2}, gas, notH, "withdraw", acc(2), acc(4))
+			})
 		}},
 		{"n-lock2", func(w *chainx.World) (txs, error) {
 			return seq(func() (*transaction.Transaction, error) {
@@ -395,10 +448,11 @@ func allInOne(w *chainx.World, abort bool) (*transaction.Transaction, error) {
 // it. Where the Notary contract is not deployed yet (the multi families
 // activate Echidna at height 5) its hash is a plain address and "deposit"
 // has no meaning, so these templates are not applicable there.
-var needsNotary = map[string]bool{"notary-deposit": true, "halt-all": true, "fault-all": true, "pair:": true}
+var needsNotary = map[string]bool{"notary-deposit": true, "halt-all": true, "fault-all": true}
 
 func guardNotary(t chainx.Tpl) chainx.Tpl {
-	if !needsNotary[t.Name] && !strings.HasPrefix(t.Name, "n-") && !(strings.HasPrefix(t.Name, "pair:") && (strings.Contains(t.Name, "d") || strings.Contains(t.Name, "w"))) {
+	pairWithNotaryOp := strings.HasPrefix(t.Name, "pair:") && strings.ContainsAny(strings.TrimPrefix(t.Name, "pair:"), "dw")
+	if !needsNotary[t.Name] && !strings.HasPrefix(t.Name, "n-") && !pairWithNotaryOp {
 		return t
 	}
 	build := t.Build
